@@ -37,6 +37,7 @@ func monC18GenesisKeyStrings(s *Stream) {
 			{base, "xlog"}, {append(append([]byte{}, base...), 'x'), "log"}, // owner ‖ topic equal as raw concatenations
 			{base, "log"}, {append(append([]byte{}, base...), 'x', 'l'), "og"},
 			{base[:19], "Alog"}, {[]byte{0x41}, "t"}, {[]byte{0x41, 0x41}, "t"},
+			{base, "."}, {base, ".."}, {base, "..."}, {base, "a.b"}, {base, "-"}, // names a path cleaner would rewrite
 		}
 		n := 0
 		for _, p := range pairs {
